@@ -9,7 +9,8 @@ use reed_solomon_simd::Error;
 
 pub fn setup_default_engine() {
     reed_solomon_simd::verif_hooks::set_feature_mask(0);
-    crate::gen::tables::install_providers();
+    // no feasible path of these harnesses executes engine arithmetic
+    crate::gen::tables::install_dummy_providers();
 }
 
 /// fixed hasher keys instead of OS randomness (Kani cannot model getrandom)
@@ -23,6 +24,8 @@ fn bad_len(l: usize) -> bool {
 
 /// documented preconditions of decode(k, r, originals, recovery)
 pub struct DecInput<'a> {
+    /// README envelope for (k, r), precomputed by the generator (concrete per harness)
+    pub supported: bool,
     pub k: usize,
     pub r: usize,
     pub o: &'a [(usize, &'a [u8])],
@@ -43,7 +46,7 @@ impl DecInput<'_> {
         n >= 2
     }
     pub fn violated(&self) -> bool {
-        if !envelope(self.k, self.r, 0) {
+        if !self.supported {
             return true;
         }
         let mut len0 = None;
@@ -75,7 +78,7 @@ impl DecInput<'_> {
     pub fn truthful(&self, e: Error) -> bool {
         match e {
             Error::UnsupportedShardCount { original_count, recovery_count } => {
-                original_count == self.k && recovery_count == self.r && !envelope(self.k, self.r, 0)
+                original_count == self.k && recovery_count == self.r && !self.supported
             }
             Error::InvalidShardSize { shard_bytes } => bad_len(shard_bytes) && self.any_len(shard_bytes),
             Error::DifferentShardSize { shard_bytes, got } => shard_bytes != got && self.any_len(shard_bytes) && self.any_len(got),
@@ -125,24 +128,25 @@ impl DecInput<'_> {
 /// and `NR` recovery entries; indexes unbounded symbolic, bytes symbolic.
 /// `all_orig`: additionally assume the originals are exactly 0..k in some
 /// order (then a violation-free input must give Ok(empty map)).
-pub fn oneshot_decode<const NO: usize, const NR: usize>(kk: usize, r: usize, lo: [usize; NO], lr: [usize; NR]) {
+pub fn oneshot_decode<const NO: usize, const NR: usize>(kk: usize, r: usize, supported: bool, lo: [usize; NO], lr: [usize; NR]) {
     setup_default_engine();
     let buf: [u8; 4] = k::any();
-    let mut o: Vec<(usize, &[u8])> = Vec::new();
+    // stack arrays (field-sensitive under CBMC: the slice lengths stay constants)
+    let mut o: [(usize, &[u8]); NO] = [(0, &buf[..0]); NO];
     let mut i = 0;
     while i < NO {
         let idx: usize = k::any();
-        o.push((idx, &buf[..lo[i]]));
+        o[i] = (idx, &buf[..lo[i]]);
         i += 1;
     }
-    let mut rec: Vec<(usize, &[u8])> = Vec::new();
+    let mut rec: [(usize, &[u8]); NR] = [(0, &buf[..0]); NR];
     let mut i = 0;
     while i < NR {
         let idx: usize = k::any();
-        rec.push((idx, &buf[..lr[i]]));
+        rec[i] = (idx, &buf[..lr[i]]);
         i += 1;
     }
-    let inp = DecInput { k: kk, r, o: &o, rec: &rec };
+    let inp = DecInput { supported, k: kk, r, o: &o, rec: &rec };
     let violated = inp.violated();
     // success paths that restore shards are outside this harness
     let complete = !violated && NO == kk;
@@ -163,16 +167,15 @@ pub fn oneshot_decode<const NO: usize, const NR: usize>(kk: usize, r: usize, lo:
 
 /// one-shot encode: error paths (a violation-free input runs a full round:
 /// outside this harness)
-pub fn oneshot_encode<const NO: usize>(kk: usize, r: usize, lo: [usize; NO]) {
+pub fn oneshot_encode<const NO: usize>(kk: usize, r: usize, supported: bool, lo: [usize; NO]) {
     setup_default_engine();
     let buf: [u8; 4] = k::any();
-    let mut o: Vec<&[u8]> = Vec::new();
+    let mut o: [&[u8]; NO] = [&buf[..0]; NO];
     let mut i = 0;
     while i < NO {
-        o.push(&buf[..lo[i]]);
+        o[i] = &buf[..lo[i]];
         i += 1;
     }
-    let supported = envelope(kk, r, 0);
     let mut lens_ok = true;
     let mut i = 0;
     while i < NO {
